@@ -767,9 +767,8 @@ func (v *Verifier) declareGhostFunc(gf *GhostFunc, pkg *types.Package) {
 		names = append(names, "("+p.Name+" "+s+")")
 	}
 	_, rs := v.resolveType(gf.Result, pkg)
-	if v.refuteMode && gf.Interp != "" {
-		v.decls.add(key, "(define-fun "+gf.Name+" ("+strings.Join(names, " ")+") "+rs+" "+gf.Interp+")")
-		return
+	if gf.Interp != "" {
+		v.decls.interp[key] = "(define-fun " + gf.Name + " (" + strings.Join(names, " ") + ") " + rs + " " + gf.Interp + ")"
 	}
 	v.decls.add(key, "(declare-fun "+gf.Name+" ("+strings.Join(ps, " ")+") "+rs+")")
 }
